@@ -96,12 +96,6 @@ def expandLoop (e : Env) : Nat → Bool → List Name → Option Path
 /-- `Documentable.expandName(name)`; `name.split('.')` is the path -/
 def expandName (e : Env) (obj : Nat) (name : Path) : Option Path := expandLoop e obj true name
 
-/-- `Documentable.resolveName(name)` -/
-def resolveName (e : Env) (obj : Nat) (name : Path) : Option Nat :=
-  match expandName e obj name with
-  | some p => objFor e p
-  | none => none
-
 inductive Found | obj (i : Nat) | external | lookupError | indexError | crash
   deriving DecidableEq, Repr
 
@@ -122,6 +116,20 @@ def findObject (e : Env) (full : Path) : Found :=
         | some p => match objFor e p with
           | some o => .obj o
           | none => .lookupError
+
+/-- `Documentable.resolveName(name)`: the expanded name is looked up; when nothing is registered under
+it, it may be the ORIGINAL location of an object moved by a re-export since it was imported:
+`find_object` follows the alias left there (`LookupError`, which includes `IndexError`, → `None`) -/
+def resolveName (e : Env) (obj : Nat) (name : Path) : Option Nat :=
+  match expandName e obj name with
+  | some p =>
+    match objFor e p with
+    | some o => some o
+    | none =>
+      match findObject e p with
+      | .obj o => some o
+      | _ => none
+  | none => none
 
 /-! ### relative import level arithmetic (`visit_ImportFrom`) -/
 
